@@ -25,7 +25,9 @@
 (* lookups with F.                                                         *)
 (***************************************************************************)
 EXTENDS UtxoChain
-CONSTANTS MaxRestarts
+CONSTANTS MaxRestarts,
+          FileLimit,           \* size of one filter file (MAX_FLTR_FILE_SIZE) in the model's units: base chain = 1 unit, a block = 1 + number of its transactions
+          PosBeforeRollover    \* FALSE: the record of an entry takes the position *after* the roll-over to the next file (the code)
 
 VARIABLES ix,        \* the index (one record; the four indexes share BaseIndex and see the same events)
           flushed,   \* last block the chainstate flushed its coins at
@@ -59,7 +61,20 @@ FSpends(B, b) == UNION { {[o |-> InOp(B[b].txs[i], j), t |-> B[b].txs[i]] : j \i
 TxsOf(B, b) == {B[b].txs[i] : i \in 1..Len(B[b].txs)}
 
 \* ------------------------------------------------------------------ the index, operationally
-NoEntry == [ok |-> FALSE, mu |-> {}, cnt |-> 0, amt |-> VZ, elems |-> {}, prevhdr |-> None]
+NoPos == [f |-> 0, p |-> 0]
+NoEntry == [ok |-> FALSE, mu |-> {}, cnt |-> 0, amt |-> VZ, elems |-> {}, prevhdr |-> None, fp |-> NoPos]
+\* ---- the flat-file store of the block filter index (fltrNNNNN.dat): WriteFilterToDisk / ReadFilterFromDisk
+\* store = what the files hold: [f, p, s, b] = the s units starting at position p of file f are the filter of block b
+FSize(B, b) == IF b = 0 THEN 1 ELSE 1 + Len(B[b].txs)
+Overlaps(r, f, p, sz) == r.f = f /\ r.p < p + sz /\ p < r.p + r.s
+\* returns [store, fpos (next position), at (where the bytes went), rec (the position the database entry records)]
+WriteFilter(store, fpos, b, sz) ==
+  LET roll == fpos.p + sz > FileLimit
+      st1 == IF roll THEN {r \in store : ~(r.f = fpos.f /\ r.p >= fpos.p)} ELSE store          \* the full file is truncated at the position and committed
+      at == IF roll THEN [f |-> fpos.f + 1, p |-> 0] ELSE fpos
+      st2 == {r \in st1 : ~Overlaps(r, at.f, at.p, sz)} \cup {[f |-> at.f, p |-> at.p, s |-> sz, b |-> b]}
+  IN [store |-> st2, fpos |-> [f |-> at.f, p |-> at.p + sz], at |-> at, rec |-> (IF PosBeforeRollover THEN fpos ELSE at)]
+BytesAre(store, fp, b) == \E r \in store : r.f = fp.f /\ r.p = fp.p /\ r.b = b
 BaseStats == [mu |-> SetOf(BaseUtxo), cnt |-> Cardinality(DOMAIN BaseUtxo), amt |-> SumV(SetOf(BaseUtxo))]
 \* the base chain (genesis .. block 0) is indexed as one step; its entry is the model's block 0
 Ix0 == [run |-> FALSE, synced |-> FALSE, best |-> None, commit |-> None, err |-> "none",
@@ -71,22 +86,28 @@ Ix0 == [run |-> FALSE, synced |-> FALSE, best |-> None, commit |-> None, err |->
         hkey |-> [h \in Heights |-> None],            \* which block's entry sits under the height key
         hashed |-> {},                                \* blocks whose entry was copied to the by-hash table
         cur |-> None, mu |-> {}, cnt |-> 0, amt |-> VZ, lasthdr |-> None,    \* running state (memory)
-        cmu |-> {} ]                                  \* DB_MUHASH as of the last commit
+        cmu |-> {},                                   \* DB_MUHASH as of the last commit
+        store |-> {}, fpos |-> NoPos,                 \* filter files and m_next_filter_pos (memory)
+        cfpos |-> NoPos ]                             \* DB_FILTER_POS (written by Commit and by every CustomRemove)
 Found(x, B, b) == x.hkey[HeightB(B, b)] = b \/ b \in x.hashed
 
 \* CustomAppend of all four indexes for block b (b = 0 stands for the whole base chain)
 IAppend(x, B, b) ==
   IF x.err # "none" THEN x
   ELSE IF b = 0 THEN
-    [x EXCEPT !.ent[0] = [ok |-> TRUE, mu |-> BaseStats.mu, cnt |-> BaseStats.cnt, amt |-> BaseStats.amt, elems |-> {"p2pk"}, prevhdr |-> None],
+    LET wf == WriteFilter(x.store, x.fpos, 0, FSize(B, 0)) IN
+    [x EXCEPT !.ent[0] = [ok |-> TRUE, mu |-> BaseStats.mu, cnt |-> BaseStats.cnt, amt |-> BaseStats.amt, elems |-> {"p2pk"}, prevhdr |-> None, fp |-> wf.rec],
+              !.store = wf.store, !.fpos = wf.fpos,
               !.hkey[H0] = 0, !.cur = 0, !.mu = BaseStats.mu, !.cnt = BaseStats.cnt, !.amt = BaseStats.amt, !.lasthdr = 0, !.best = 0, !.dirty = TRUE]
   ELSE IF x.cur # B[b].parent THEN [x EXCEPT !.err = "append-on-wrong-parent"]          \* coinstatsindex: previous block header belongs to unexpected block
   ELSE LET cr == CreatedBy(B, b) sp == SpentBy(B, b)
            mu2 == (x.mu \cup cr) \ sp
+           wf == WriteFilter(x.store, x.fpos, b, FSize(B, b))
            e == [ok |-> TRUE, mu |-> mu2, cnt |-> x.cnt + Cardinality(cr) - Cardinality(sp),
                  amt |-> [k |-> x.amt.k + SumV(cr).k - SumV(sp).k, s |-> x.amt.s + SumV(cr).s - SumV(sp).s],
-                 elems |-> FElems(B, b), prevhdr |-> x.lasthdr]
-       IN [x EXCEPT !.txi = @ \cup {<<t, b>> : t \in TxsOf(B, b)},
+                 elems |-> FElems(B, b), prevhdr |-> x.lasthdr, fp |-> wf.rec]
+       IN [x EXCEPT !.store = wf.store, !.fpos = wf.fpos,
+                    !.txi = @ \cup {<<t, b>> : t \in TxsOf(B, b)},
                     !.spd = @ \cup {<<y.o, y.t, b>> : y \in FSpends(B, b)},
                     !.ent[b] = e, !.hkey[HeightB(B, b)] = b,
                     !.cur = b, !.mu = e.mu, !.cnt = e.cnt, !.amt = e.amt, !.lasthdr = b, !.best = b, !.dirty = TRUE]
@@ -100,14 +121,14 @@ IRemove(x, B, b) ==
           ELSE LET cr == CreatedBy(B, b) sp == SpentBy(B, b)
                    mu2 == (x1.mu \ (cr \ sp)) \cup (sp \ cr) IN       \* MuHash is a group: an output created and spent inside the block cancels
                IF mu2 # x1.ent[p].mu THEN [x1 EXCEPT !.err = "rewind-muhash-mismatch"]          \* Assert(read_out.second.muhash == out)
-               ELSE [x1 EXCEPT !.spd = {y \in @ : y[3] # b},
+               ELSE [x1 EXCEPT !.spd = {y \in @ : y[3] # b}, !.cfpos = x1.fpos,
                                !.cur = p, !.mu = mu2, !.cnt = x1.ent[p].cnt, !.amt = x1.ent[p].amt, !.lasthdr = p, !.best = p, !.dirty = TRUE]
 RECURSIVE RewindTo(_, _, _)
 RewindTo(x, B, f) == IF x.best = f \/ x.err # "none" THEN x ELSE RewindTo(IRemove(x, B, x.best), B, f)
 RECURSIVE AppendAll(_, _, _)
 AppendAll(x, B, path) == IF path = <<>> THEN x ELSE AppendAll(IAppend(x, B, Head(path)), B, Tail(path))
 \* BaseIndex::Commit: nothing indexed yet, or index best not an ancestor of the last flushed block -> skipped
-Commit(x, B, fl) == IF x.err = "none" /\ x.best # None /\ fl # None /\ x.best \in AncB(B, fl) THEN [x EXCEPT !.commit = x.best, !.cmu = x.mu, !.dirty = FALSE] ELSE x
+Commit(x, B, fl) == IF x.err = "none" /\ x.best # None /\ fl # None /\ x.best \in AncB(B, fl) THEN [x EXCEPT !.commit = x.best, !.cmu = x.mu, !.cfpos = x.fpos, !.dirty = FALSE] ELSE x
 \* BaseIndex::BlockConnected for block b while synced
 OnConnected(x, B, b) ==
   IF ~(x.run /\ x.synced) \/ x.err # "none" THEN x
@@ -177,7 +198,7 @@ IStart ==
          okf == c = None \/ ix.hkey[HeightB(blk, c)] = c                        \* blockfilterindex: ReadFilterHeader reads the height key only
          e == IF ~okc THEN "coinstats-init-entry-mismatch" ELSE "none"
      IN ix' = IF e # "none" THEN [ix EXCEPT !.run = TRUE, !.err = e, !.unclean = (@ \/ ix.dirty)]
-              ELSE [ix EXCEPT !.run = TRUE, !.best = c, !.synced = (c = tip), !.cur = c, !.unclean = (@ \/ ix.dirty), !.ferr = ~okf,
+              ELSE [ix EXCEPT !.run = TRUE, !.best = c, !.synced = (c = tip), !.cur = c, !.unclean = (@ \/ ix.dirty), !.ferr = ~okf, !.fpos = ix.cfpos,
                               !.mu = (IF c = None THEN {} ELSE ix.cmu), !.cnt = (IF c = None THEN 0 ELSE ix.ent[c].cnt),
                               !.amt = (IF c = None THEN VZ ELSE ix.ent[c].amt), !.lasthdr = c]
   /\ nrst' = nrst + 1 /\ UNCHANGED <<chainvars, flushed>>
@@ -219,6 +240,10 @@ SpenderAgreesClean == ~ix.unclean => (SpenderAgrees /\ SpenderNoStale)
 EntriesFound == \A b \in Covered : Found(ix, blk, b) /\ ix.ent[b].ok
 CoinStatsAgree == \A b \in Covered \ {0} : LET f == FStats(blk, b) e == ix.ent[b] IN e.mu = f.mu /\ e.cnt = f.cnt /\ e.amt = f.amt
 FiltersAgree == ~ix.ferr => \A b \in Covered \ {0} : ix.ent[b].elems = FElems(blk, b) /\ ix.ent[b].prevhdr = blk[b].parent
+\* the flat-file layer: for every covered block the bytes at the position its entry records are its filter
+FilterBytesAgree == ~ix.ferr => \A b \in Covered : BytesAre(ix.store, ix.ent[b].fp, b)
+\* ... and so are those of every reorged-out block that is still found through the by-hash table (histories without an unclean restart)
+StaleFilterBytesAgree == (~ix.ferr /\ ~ix.unclean /\ ix.run) => \A b \in 0..n : (ix.ent[b].ok /\ Found(ix, blk, b)) => BytesAre(ix.store, ix.ent[b].fp, b)
 RunningStateAgrees == (ix.run /\ ix.best # None /\ ix.best # 0 /\ ix.best \in AncB(blk, tip)) => ix.mu = FStats(blk, ix.best).mu
 CommitBehindFlush == ix.commit = None \/ flushed # None
 
